@@ -63,6 +63,10 @@ TRUSTED = [
 ]
 
 KINDS = ('acq', 'tick', 'rel', 'disc', 'stop')
+# client names sent with an acquire request: the property does not restrict them (the value must
+# only be hashable for the lock-view bookkeeping)
+NAME_POOL = ('', None, 0, 'x', 'load: tgt.task.alg', 'n' * 2000,
+             'n\u00e4me with  spaces\n\t"quotes" (parens) \x00 \\ %s {0}', False, -1, 'None')
 REOPEN = 'reopen'   # harness-only event: the shelve DBI is closed and opened again (no model op)
 
 
@@ -214,7 +218,8 @@ def frame(b):
 class World:
     """n real Workers on fake transports"""
 
-    def __init__(self, n):
+    def __init__(self, n, names=None):
+        self.names = list(names) if names else ['c%d' % c for c in range(n)]
         m = self.m = Mods.get()
         m.world = self
         m.context.db_lock = False
@@ -287,7 +292,7 @@ class World:
         try:
             if kind in ('acq', 'rel'):
                 func = m.comms.Func.acquire if kind == 'acq' else m.comms.Func.release
-                req = m.comms.COMMAND(func, None, None, 'c%d' % c if kind == 'acq' else None)
+                req = m.comms.COMMAND(func, None, None, self.names[c % len(self.names)] if kind == 'acq' else None)
                 if wire:
                     w.dataReceived(frame(pickle.dumps(req, pickle.HIGHEST_PROTOCOL)))
                 else:
@@ -403,9 +408,9 @@ class Monitor:
             hit('C13:granted-after-loss', f'connection {dead[0]} owns the lock although its connection has dropped')
 
 
-def run_case(n, ops):
+def run_case(n, ops, names=None):
     """run an event list on fresh real Workers; returns (observations, monitor hits)"""
-    world = World(n)
+    world = World(n, names)
     mon = Monitor(n, world.m.yours)
     obs = []
     for i, op in enumerate(ops):
@@ -478,15 +483,22 @@ def stored_corpus():
     out = []
     for f in sorted(glob.glob(os.path.join(common.VERIF, 'corpus', 'C13', '*.json'))):
         d = json.load(open(f))
-        out.append((d['n'], [norm(o) for o in d['ops']]))
+        out.append((d['n'], [norm(o) for o in d['ops']]) + ((d['names'],) if d.get('names') else ()))
     return out
 
 
-def gen_valid(r, n, length):
+def draw_names(r, n):
+    """client names of one case: mostly the plain ones, otherwise drawn from the pool"""
+    if r.random() < 0.5:
+        return None
+    return [r.choice(NAME_POOL) for _ in range(n)]
+
+
+def gen_valid(r, n, length, names=None):
     """clients that follow the protocol (acquire, poll until told, release on the wire, connection
     closed by the server), interleaved at random, with connection drops at any point and the
     delayed stops fired at random times.  Generated online against the real code."""
-    world = World(n)
+    world = World(n, names)
     mon = Monitor(n, world.m.yours)
     ops, obs = [], []
     closing = [False] * n
@@ -576,7 +588,7 @@ class Batch:
     def count(self, k, v=1):
         self.stats[k] = self.stats.get(k, 0) + v
 
-    def add(self, tag, n, ops, obs, hits):
+    def add(self, tag, n, ops, obs, hits, names=None, to_model=True):
         import hashlib
         self.evals += 1
         self.count('case:' + tag)
@@ -601,16 +613,22 @@ class Batch:
         self.count('grants', grants)
         nontrivial = grants >= 1 and len({op[1] for op in ops}) >= 2 and bool(held)
         if nontrivial:
-            self.nontrivial.add(hashlib.sha1(repr((n, ops)).encode()).hexdigest()[:16])
+            self.nontrivial.add(hashlib.sha1(repr((n, ops, names)).encode()).hexdigest()[:16])
         if len(self.samples) < 3 and nontrivial and tag != 'exhaustive':
             self.samples.append({'connections': n, 'events': [list(o) for o in ops],
                                  'sent': [o['msgs'] for o in obs]})
         for sig, what, i in hits:
             # the history up to and including the event at which the property fails
-            self.hits.append((sig, what, {'n': n, 'ops': [list(o) for o in ops[:i + 1]]}))
+            r_ = {'n': n, 'ops': [list(o) for o in ops[:i + 1]]}
+            if names:
+                r_['names'] = list(names)
+                what += ' [client names %r]' % ([repr(x)[:24] for x in names],)
+            self.hits.append((sig, what, r_))
+        if names:
+            self.count('cases-with-names-from-pool')
         if any(op[0] == REOPEN for op in ops):
             self.count('histories-with-db-reopen(monitors-only)')
-        elif self.lean:
+        elif self.lean and to_model:
             self.cases.append((tag, n, ops, [canon_obs(o) for o in obs],
                                [o['stray'] for o in obs]))
 
@@ -618,6 +636,7 @@ class Batch:
         if not self.lean or not self.cases:
             return
         outs = common.driver([line_of(n, ops) for _t, n, ops, _o, _s in self.cases], 'C13')
+        self.count('compared-with-model', len(self.cases))
         for (tag, n, ops, impl, stray), o in zip(self.cases, outs):
             model = common.parse_sx(o)
             if any(stray) and len(self.diffs) < 5:
@@ -640,15 +659,20 @@ class Batch:
 
 def _exhaustive_chunk(args):
     """one slice of the exhaustive enumeration (every `stride`-th canonical sequence)"""
-    n, length, offset, stride, lean = args
+    n, length, offset, stride, lean = args[:5]
+    model_every = args[5] if len(args) > 5 else 1   # quick tier: every k-th list also goes to the model
     alphabet = [('acq', True), ('tick',), ('rel', True), ('disc',), ('stop',)]
     b = Batch(lean)
     for idx, seq in enumerate(canonical_seqs(n, length, [(k,) for k in range(len(alphabet))])):
         if idx % stride != offset:
             continue
         ops = [_mk(alphabet[k], c) for k, c in seq]
-        obs, hits = run_case(n, ops)
-        b.add('exhaustive', n, ops, obs, hits)
+        # every third sequence runs with client names from the pool (rotating through it)
+        names = [NAME_POOL[(idx // 3 + 3 * c) % len(NAME_POOL)] for c in range(n)] if idx % 3 == 0 else None
+        obs, hits = run_case(n, ops, names)
+        b.add('exhaustive', n, ops, obs, hits, names, to_model=(idx // stride) % model_every == 0)
+        if lean and (idx // stride) % model_every == 0:
+            b.count('exhaustive:compared-with-model')
         if len(b.cases) >= 40000:
             b.compare()
     b.compare()
@@ -662,13 +686,14 @@ def _random_chunk(args):
     for _ in range(count):
         n = r.choice([1, 2, 2, 3, 3, 4, 5])
         length = r.choice([30, 60, 120, 200]) if long_ else r.choice([4, 8, 12, 20, 40])
+        names = draw_names(r, n)
         if r.random() < 0.7:
-            ops, obs, hits = gen_valid(r, n, length)
-            b.add('valid', n, ops, obs, hits)
+            ops, obs, hits = gen_valid(r, n, length, names)
+            b.add('valid', n, ops, obs, hits, names)
         else:
             ops = gen_malformed(r, n, length)
-            obs, hits = run_case(n, ops)
-            b.add('malformed', n, ops, obs, hits)
+            obs, hits = run_case(n, ops, names)
+            b.add('malformed', n, ops, obs, hits, names)
     b.compare()
     return b.result()
 
@@ -782,7 +807,8 @@ def run_client_case(inp):
     """connection 0 owns the lock; the real `comms.acquire` runs as the client of connection 1.
     Returns (outcome, owner flag of connection 1, db_lock)."""
     m = Mods.get()
-    world = World(2)
+    cname = inp.get('name', 'client')
+    world = World(2, [inp.get('holder', 'holder'), cname])
     world.do(('acq', 0, True))
     release_at = inp.get('release_at')
 
@@ -798,7 +824,7 @@ def run_client_case(inp):
     saved = m.security.connect
     m.security.connect = lambda addr: sock
     try:
-        got = m.comms.acquire('client')
+        got = m.comms.acquire(cname)
         outcome = 'returned' if got is sock else 'returned-other'
     except StillWaiting:
         outcome = 'waiting'
@@ -817,7 +843,8 @@ def check_client_case(inp, res):
                 f'comms.acquire() returned (the client now believes it holds the lock) after '
                 f'{inp["k"]} "locked" answers and a socket fault {inp.get("fault")} {inp.get("cut", 0)} bytes '
                 f'into the next answer, but its connection does not own the lock '
-                f'(owner flag {owner}, db_lock {lock}) while connection 0 holds it',
+                f'(owner flag {owner}, db_lock {lock}) while connection 0 holds it '
+                f'[names: holder {inp.get("holder", "holder")!r:.24}, client {inp.get("name", "client")!r:.24}]',
                 dict(inp, kind='client'))
     return outcome, owner
 
@@ -845,6 +872,16 @@ def client_faults(res):
         if outcome != 'waiting':
             res.count('client:control-not-waiting:' + outcome)
         n += 2
+    # the same with client names from the pool, for the holder and for the waiting client
+    for name in NAME_POOL:
+        for holder in ('holder', name):
+            for fault, extra in (('OSError', {}), ('EOF', {}), (None, {}), (None, {'release_at': 1})):
+                inp = dict({'k': 1, 'fault': fault, 'cut': 2, 'name': name, 'holder': holder}, **extra)
+                outcome, owner = check_client_case(inp, res)
+                if fault is None and extra and not (outcome == 'returned' and owner):
+                    res.diff('client control: comms.acquire() does not return after a grant',
+                             inp, 'returned, owner', [outcome, owner])
+                n += 1
     res.evaluations += n
     res.count('client-fault-scripts', n)
 
@@ -918,9 +955,14 @@ def run(ctx, res):
     validate_generated(res, lean)
     client_faults(res)
     b = Batch(lean)
-    for n, ops in stored_corpus() + corpus():
-        obs, hits = run_case(n, ops)
-        b.add('corpus', n, ops, obs, hits)
+    falsy = [x for x in NAME_POOL if not x and x is not False]
+    odd = [x for x in NAME_POOL if x]
+    for j, (n, ops, names) in enumerate([c + (None,) if len(c) == 2 else c for c in stored_corpus() + corpus()]):
+        variants = [names] if names else [None, [falsy[(j + c) % len(falsy)] for c in range(n)],
+                                           [odd[(j + c) % len(odd)] for c in range(n)]]
+        for nm in variants:
+            obs, hits = run_case(n, ops, nm)
+            b.add('corpus', n, ops, obs, hits, nm)
     b.compare()
     _merge(res, b.result())
     Mods.get().DBI().close()   # nothing of the scratch store stays open across the fork
@@ -938,18 +980,19 @@ def _run_pools(ctx, res, thorough, lean):
         rjobs = [(ctx['seed'], 'r%d' % i, 1500, lean, False) for i in range(8)] \
             + [(ctx['seed'], 'l%d' % i, 150, lean, True) for i in range(8)]
     else:
-        jobs = [(2, 5, i, 4, lean) for i in range(4)] + [(3, 4, 0, 1, lean), (1, 5, 0, 1, lean)]
+        jobs = [(2, 5, i, 8, lean, 4) for i in range(8)] + [(3, 4, i, 2, lean, 2) for i in range(2)] \
+            + [(2, 4, 0, 1, lean), (1, 5, 0, 1, lean)]
         rjobs = [(ctx['seed'], 'r%d' % i, 400, lean, False) for i in range(4)] \
             + [(ctx['seed'], 'l%d' % i, 30, lean, True) for i in range(2)]
     mp = multiprocessing.get_context('fork')
-    with mp.Pool(min(16, len(jobs) + len(rjobs))) as pool:
+    with mp.Pool(min(16 if thorough else 8, len(jobs) + len(rjobs))) as pool:
         r1 = pool.map_async(_exhaustive_chunk, jobs, chunksize=1)
         r2 = pool.map_async(_random_chunk, rjobs, chunksize=1)
         for out in r1.get() + r2.get():
             _merge(res, out)
     res.exhaustive = False
     res.count('exhaustive:scopes', len({(j[0], j[1]) for j in jobs}))
-    res.traces = res.evaluations if lean else 0
+    res.traces = res.stats.get('compared-with-model', 0)
 
 
 def replay(rep, res):
@@ -959,7 +1002,7 @@ def replay(rep, res):
         return
     ops = [norm(o) for o in inp['ops']]
     try:
-        _obs, hits = run_case(inp['n'], ops)
+        _obs, hits = run_case(inp['n'], ops, inp.get('names'))
     finally:
         Mods.get().cleanup_db()
     for sig, what, _i in hits:
